@@ -70,6 +70,24 @@ def constraints(a, st, atoms_hint=()):
         if n[0] == 'rel':
             add_rel(n[1], n[2], n[3])
             if n[1] == '!=':
+                # i != ULONG_MAX for i = mpz_scan1(X, ..) (GMP's bit scanner: the index of a set bit, or all ones when there is
+                # none above the start position and X >= 0)  =>  i <= bits(X) - 1
+                for x, y in ((n[2], n[3]), (n[3], n[2])):
+                    if T.is_int(y, 2 ** 64 - 1):
+                        srcs = [x]
+                        if T.op(x) == 'phi':
+                            srcs = list(T.phi_src.get((T.node(x)[1], T.node(x)[2]), ()))
+                        ops = set()
+                        for s_ in srcs:
+                            sn = T.node(s_)
+                            if sn[0] == 'callr' and sn[1] in ('mpz_scan1',) and len(sn) >= 3:
+                                ops.add(sn[2])
+                            else:
+                                ops.add(None)
+                        if len(ops) == 1 and None not in ops:
+                            d = sub(upoly(a, T.mk('bits', ops.pop())), upoly(a, x))
+                            padd(d, {(): Fraction(1)}, -1)
+                            out.append(d)
                 # std::string::find(...) != npos  =>  the position found is below length()
                 for x, y in ((n[2], n[3]), (n[3], n[2])):
                     xn = T.node(x)
@@ -216,6 +234,13 @@ def index_ok(a, st, base_loc, base_type, idx):
         if len(sizes) == 1 and None not in sizes:
             heap = sizes.pop()
     fill = getattr(a, 'fill_size', {}).get(unwrap(a, cval)) if cval is not None else None
+    if base_type and base_type.replace(' ', '') == '__mpz_struct(*)[1]':
+        alen = None         # a pointer to mpz_t cells (an mpz_t[] parameter), not an array of one element
+    if alen is None and base_type and base_type.replace(' ', '') == '__mpz_struct(*)[1]' and isinstance(base_loc, tuple) and base_loc[0] == 'v' and \
+            str(base_loc[2]).startswith('fpowm_table') and getattr(a, 'fpowm_rows', None):
+        # a fixed-base table handed in by the caller: TMCG_MAX_FPOWM_T rows by the library-wide contract (every table is
+        # allocated with that constant, R08f / R09c)
+        alen = a.fpowm_rows
     if alen is not None:
         cap = {(): Fraction(alen)}
     elif fill is not None:
